@@ -32,12 +32,20 @@ def stacks(mods):
         import functools
         return HashClient([("10.0.0.1", 1)], socket_module=S.sm, hasher=functools.partial(RendezvousHash, hash_function=lambda x, seed: 0), **kw)
 
+    def mk_hash_spelled(S, kw):
+        # the single server written as a string that differs from its normalised form (`unix:` prefix; also a bare host name, a bracketed IPv6 address)
+        return HashClient(["unix:/var/run/mc.sock"], socket_module=S.sm, **kw)
+
+    def mk_hash_spelled_pooled(S, kw):
+        return HashClient(["unix:/var/run/mc.sock"], socket_module=S.sm, use_pooling=True, max_pool_size=2, **kw)
+
     def mk_retry(S, kw):
         return RetryingClient(Client(("h", 1), socket_module=S.sm, **kw), attempts=2)
 
     def mk_retry_pooled(S, kw):
         return RetryingClient(PooledClient(("h", 1), socket_module=S.sm, **kw), attempts=3)
-    return [("Client", mk_client), ("PooledClient", mk_pooled), ("HashClient", mk_hash), ("HashClient+pool", mk_hash_pooled), ("HashClient(score 0)", mk_hash_zero), ("RetryingClient", mk_retry),
+    return [("Client", mk_client), ("PooledClient", mk_pooled), ("HashClient", mk_hash), ("HashClient+pool", mk_hash_pooled), ("HashClient(score 0)", mk_hash_zero), ("HashClient(unix: spelling)", mk_hash_spelled),
+            ("HashClient(unix: spelling)+pool", mk_hash_spelled_pooled), ("RetryingClient", mk_retry),
             ("RetryingClient(Pooled)", mk_retry_pooled)]
 
 
@@ -157,12 +165,15 @@ def main(argv):
                 for sd in (None, "pickle", "legacy-both", "legacy-deserializer-only", "legacy-serializer-only"):
                     if sd and sd.startswith("legacy") and (enc != "ascii" or isinstance(val, bytes) or pfx):
                         continue
-                    for tmo in ((None, None), (1.5, 2.5)):
-                        if sd and sd.startswith("legacy") and tmo[0] is not None:
+                    for tmo in ((None, None), (1.5, 2.5), (None, 2.5), (1.5, None)):
+                        if sd and sd.startswith("legacy") and tmo != (None, None):
                             continue
+                        if ((tmo[0] is None) != (tmo[1] is None)) and (sd or enc != "ascii" or isinstance(val, bytes)):
+                            continue          # only one of the two timeouts given: on the plain configurations
                         cfgs.append({"key_prefix": pfx, "default_noreply": dnr, "encoding": enc, "allow_unicode_keys": au, "_key": key, "_val": val, "_serde": sd, "_tmo": tmo})
     if not ctx.thorough:
-        cfgs = [c for i, c in enumerate(cfgs) if i % 3 == 0 or c["encoding"] == "utf8" or str(c["_serde"]).startswith("legacy")]
+        cfgs = [c for i, c in enumerate(cfgs) if i % 3 == 0 or c["encoding"] == "utf8" or str(c["_serde"]).startswith("legacy")
+                or ((c["_tmo"][0] is None) != (c["_tmo"][1] is None) and c["default_noreply"])]
     states = ["hit", "miss", "cas-mismatch", "non-numeric", "numeric", "empty-value"]
     grid = op_grid()
     seen_calls = {(op, repr(a), repr(k_)) for op, a, k_ in grid}
@@ -178,7 +189,7 @@ def main(argv):
             kw["serializer"] = lambda key, value: ((b"S:" + value if isinstance(value, bytes) else ("S:" + str(value)).encode()), 5)
         if cfg["_serde"] in ("legacy-both", "legacy-deserializer-only"):
             kw["deserializer"] = lambda key, value, flags: ("D", flags, value)
-        if cfg["_tmo"][0] is not None:
+        if cfg["_tmo"] != (None, None):
             kw["connect_timeout"], kw["timeout"] = cfg["_tmo"]
         K, VAL = cfg["_key"], cfg["_val"]
         for state in states:
@@ -202,7 +213,7 @@ def main(argv):
                         obj = None
                     if obj is not None:
                         # establish the server state through a plain raw feed (not through the client under test)
-                        srv = S.server_for(type("C", (), {"addr": (("10.0.0.1", 1) if sname == "HashClient(score 0)" else ("h", 1)), "id": 999})())
+                        srv = S.server_for(type("C", (), {"addr": (("10.0.0.1", 1) if sname == "HashClient(score 0)" else "/var/run/mc.sock" if "unix:" in sname else ("h", 1)), "id": 999})())
                         wk = kw["key_prefix"] + K.encode("utf8")
                         if state in ("hit", "cas-mismatch"):
                             srv.feed(999, b"set " + wk + b" 0 0 3\r\nold\r\n")
@@ -291,7 +302,7 @@ def main(argv):
                         outs.append(canon_value(op, r))
                     except Exception as e:
                         outs.append(canon_exc(e))
-                addr = ("10.0.0.1", 1) if sname == "HashClient(score 0)" else ("h", 1)
+                addr = ("10.0.0.1", 1) if sname == "HashClient(score 0)" else "/var/run/mc.sock" if "unix:" in sname else ("h", 1)
                 srv = S.server_for(type("C", (), {"addr": addr, "id": 999})())
                 lines_seen = [c for c in srv.cmds]
                 outcome = (outs, [repr(c)[:60] for c in lines_seen])
